@@ -35,6 +35,8 @@ MUTANTS = [
      "    filtered_citations.sort(key=lambda citation: citation.full_span())", ["C03"]),
     ("pin-cite-no-clamp", "eyecite/helpers.py", "            extra_chars = max(\n                len(m[\"pin_cite\"].rstrip(\", \")) - len(prefix), 0\n            )",
      "            extra_chars = len(m[\"pin_cite\"].rstrip(\", \")) - len(prefix)", ["C02"]),
+    ("d26-int-limit", "eyecite/resolve.py", "    try:\n        page = int(full_cite.groups[\"page\"])\n    except ValueError:\n        # a digit string too long to be converted lies beyond any pin cite\n        return True\n",
+     "    page = int(full_cite.groups[\"page\"])\n", ["C04"]),
     ("year-no-upper-bound", "eyecite/helpers.py", "    if year < 1600 or year > _highest_valid_year:", "    if year < 1600:", ["C18"]),
     ("ac-filter-lower-only-text", "eyecite/tokenizers.py", "            (s.lower(), e)\n", "            (s, e)\n", ["C13"]),
     ("parallel-none-start", "eyecite/models.py", "            self.full_span_start is not None\n            and self.full_span_start == preceding.full_span_start",
